@@ -744,9 +744,15 @@ def discharge(obs, timeout_s=60, jobs=None, second=False, seed=0, progress=None)
                     results[i] = dict(name=_OBS[i].name, prop=_OBS[i].prop, status='error', detail='worker died', expect=_OBS[i].expect, meta=_OBS[i].meta)
                 p.join(); done.append(i)
             elif not p.is_alive():
-                results[i] = dict(name=_OBS[i].name, prop=_OBS[i].prop, status='error', detail='worker died (exit %s)' % p.exitcode,
-                                  expect=_OBS[i].expect, meta=_OBS[i].meta)
-                done.append(i)
+                # the worker may have sent its result between the poll above and its exit: look once more before calling it dead
+                got = None
+                try:
+                    if pc.poll(0.5): got = pc.recv()
+                except (EOFError, OSError):
+                    got = None
+                results[i] = got if got is not None else dict(name=_OBS[i].name, prop=_OBS[i].prop, status='error', detail='worker died (exit %s)' % p.exitcode,
+                                                              expect=_OBS[i].expect, meta=_OBS[i].meta)
+                p.join(); done.append(i)
             elif time.time() - t0 > hard:
                 p.kill(); p.join()
                 results[i] = dict(name=_OBS[i].name, prop=_OBS[i].prop, status='undecided', detail='hard timeout (%ds)' % hard,
